@@ -27,6 +27,10 @@ HDR = ("From Coq Require Import List NArith Bool.\n"
        "Import ListNotations.\nLocal Open Scope N_scope.\n")
 
 S_BASE, S_COUNT = 0xAC00, 11172
+# guards of translator/tr_norm.py (other properties' guards are their business)
+OWN_GUARDS = {"ccc_enum", "decomposition_table_row", "decomposition_table", "composition_table_row", "composition_table",
+              "hangul_constants", "modified_combining_class_table", "modified_combining_class_fn", "space_fallback",
+              "max_combining_marks", "spec_decomposition", "spec_marks", "tr_norm"}
 SPACE_FALLBACK = [0x20, 0xA0] + list(range(0x2000, 0x200B)) + [0x202F, 0x205F, 0x3000]
 
 # ------------------------------------------------------------------ independent Unicode data (unicodedata)
@@ -495,7 +499,7 @@ def run(chk):
     pr = chk.prove(extra_targets=["Corr/NormalizeC.vo"])
     broken = []
     if chk.guards_failed:
-        broken += ["translator-guard:%s (%s)" % g for g in chk.guards_failed if True]
+        broken += ["translator-guard:%s (%s)" % g for g in chk.guards_failed if g[0] in OWN_GUARDS]
     if not pr["ok"]:
         broken += ["proof:" + f for f in pr["failed"]]
     ok, binp, blog = C.cargo_build("release", hooks=True)
@@ -507,7 +511,31 @@ def run(chk):
         fails, d2 = api_level(chk, binp, rng, thorough)
         dis = d1 + d2
     chk.note("correspondence_disagreements", len(dis))
+    chk.note("interpretation",
+             "a lone unmapped character is shown as the SHORTEST partial canonical decomposition that is entirely mapped "
+             "(e.g. U+1E09 -> U+00E7 U+0301 when the font has U+00E7), which is canonically equivalent to the full one; the "
+             "sentence 'full canonical decomposition' is checked literally on fonts without the intermediate forms "
+             "(singles.partial_not_full counts the lacks-it cases where the shorter form was shown)")
     for f in table_fails[:4]:
+        # make the table-level failure an API-level input as well
+        try:
+            if "pair" in f and isinstance(f["pair"], str):
+                a, b = [int(x, 16) for x in f["pair"].split()]
+                rep = {a, b} | {int(f[k], 16) for k in ("unicode", "implementation") if f.get(k)}
+                text = [a, b]
+            elif "char" in f:
+                c = int(f["char"], 16)
+                rep = {int(x, 16) for k in ("unicode", "implementation") if f.get(k) for x in f[k].split()}
+                text = [c]
+            else:
+                rep = None
+            if rep is not None and ok:
+                o = shape_many(binp, [(rep, text)])[0]
+                f.update({"repertoire": hx(sorted(rep)), "text": hx(text), "font_kind": "random",
+                          "shaped": None if o is None else " ".join("%X:%d" % p for p in o),
+                          "replay_cmd": "printf '%s;%s\\n' | rbv c09 shape" % (hx(sorted(rep)), hx(text))})
+        except Exception as ex:  # noqa
+            f["api_replay_error"] = repr(ex)
         chk.violation(f["what"], f)
     for f in fails[:6]:
         chk.violation(f[0].split(":")[0].replace(" ", "-"), fail_payload(f))
